@@ -3,7 +3,7 @@
 # regenerates the instrumented third-party copies and pre-builds every worker flavour so
 # that the checks start from a warm build cache.
 set -e
-cd /verif
+cd "$(dirname "$0")/.."
 export GOFLAGS=-mod=mod GOPROXY=off GOSUMDB=off GOTOOLCHAIN=local
 mkdir -p bin evidence work
 go build -o bin/vcheck ./cmd/vcheck
